@@ -114,12 +114,13 @@ def return_blocks(body):
     return [bi for bi, _i, t in body.terms() if t["k"] == "Return"]
 
 
-def must_pass(body, from_bb, through_blocks, to_blocks):
+def must_pass(body, from_bb, through_blocks, to_blocks, removed_edges=(), unwind=True):
     """Every path from from_bb to any of to_blocks passes through one of
-    through_blocks (normal + unwind edges)."""
+    through_blocks (normal + unwind edges), optionally with some edges taken out
+    (the arms of other enum variants when one variant is being followed)."""
     if from_bb in through_blocks:
         return True
-    r = body.reachable(from_bb, removed_blocks=set(through_blocks))
+    r = body.reachable(from_bb, removed_blocks=set(through_blocks), removed_edges=set(removed_edges), unwind=unwind)
     return not any(b in r for b in to_blocks)
 
 
